@@ -82,6 +82,7 @@ Val(s, o, w) ==
     [] o.k = "reg16" -> s.regs[o.r]
     [] o.k = "sreg"  -> s.regs[o.r]
     [] o.k = "imm"   -> o.v % Pow2(w)
+    [] o.k = "offset" -> o.v % Pow2(w)                \* OFFSET label: the label's offset as a constant
     [] IsMem(o)      -> IF w = 8 THEN Rd(s, Addr(s.regs, o)) ELSE Rd16(s, Addr(s.regs, o))
 
 \* storing v (width w) into operand o, addresses resolved in the PRE state s: <<regs', writes>>
